@@ -209,7 +209,7 @@ static void replyBuild(const char *conn1, const char *conn2, const char *xname)
     static char buf[FWD_MAXN + 1];
     for (unsigned i = 0; i < c.k.n; ++i) buf[i] = (char)c.k.b[i];
     buf[c.k.n] = 0;
-    const unsigned login = (unsigned)vf_concretize(vf_range(0, T(2, 4), "peer_login"));   // none, PASS, PASSTHRU (thorough: PROXYPASS, user:pw)
+    const unsigned login = (unsigned)vf_concretize(vf_range(0, T(2, 3), "peer_login"));   // none, PASS, PASSTHRU (thorough: PROXYPASS)
     const bool keep = vf_bool("proxyKeepalive");
     const bool http11 = vf_bool("http11");
     const HttpHeader *h = c04BuildReplyHeader(buf, c.k.n, Logins[login], 200, keep, http11);
@@ -257,7 +257,7 @@ static const Family Families[] = {
     // 5 reg: a registered end-to-end name (Accept) listed with symbolic case/neighbours
     {T(B1 "ccep" B2, B1 "cce" B3), nullptr, "Xe"},
     // 6 name: symbolic extension name against a partly symbolic list
-    {T("close,xE" B1, "close,xE" B1 ",k" B1), nullptr, T("\x02\x02", "\x02\x02\x02")},
+    {T("close,xE" B1, "close,xE" B1 ",k" B1), nullptr, "\x02\x02"},
     // 7 flags: concrete header 'Connection: xE , close', extension field 'Xe' (request(): every flag and login mode symbolic)
     {" xE , close", nullptr, "Xe"},
 };
